@@ -11,6 +11,12 @@ for a reflected statement these are looked up in the schema regenerated from the
 (`Model/Reflect.lean: toVisit`, `Gen/Schema.lean`), and the side conditions at the end are
 re-decided by the kernel on that schema on every run.  The model's callback sequence is compared
 with the real `Visit`/`VisitMut` walks by the stream `visit`.
+
+A field-level hook on a `Vec` field fires around each element (the derive's `for item in field
+{ pre; visit; post }`); `Model/Reflect.lean` reflects such a field as a hook-less node whose kids are
+the elements, each carrying the hook, so the generic theorems cover it as they stand;
+`hooked_vec_trace` spells out the resulting callback sequence and `each_positions_consistent`
+checks that the model applies that reading to exactly the fields the derive does.
 -/
 namespace SqlVerif.Props.C16
 open SqlVerif.Visit
@@ -83,6 +89,51 @@ theorem identity_mut_any_fuel (brk : Nat → Bool) (v : Val) (fuel : Nat) (h : s
     walkM cbId brk fuel [] v St.init = some ((run brk v).1, v, (run brk v).2) :=
   walkM_id brk v fuel [] St.init h
 
+/-! ## a field-level hook on a `Vec` field: once per element, in order -/
+
+/-- what the derive's `for item in field { pre_h(item)?; item.visit(visitor)?; post_h(item)?; }` delivers
+    for the elements `xs` of a field at path `rp`, counting elements from `i` -/
+def eachEvents (h : Nat) (rp : List Nat) : Nat → List Val → List Ev
+  | _, [] => []
+  | i, x :: r =>
+    ⟨⟨h, true, i :: rp⟩, false⟩ :: (events (i :: rp) x ++ ⟨⟨h, true, i :: rp⟩, true⟩ :: eachEvents h rp (i + 1) r)
+
+theorem eventsKids_each (h : Nat) (rp : List Nat) : ∀ (i : Nat) (xs : List Val),
+    eventsKids rp i (xs.map fun e => (some h, e)) = eachEvents h rp i xs
+  | _, [] => by simp [eventsKids, eachEvents]
+  | i, x :: r => by simp [eventsKids, eachEvents, optEv, eventsKids_each h rp (i + 1) r]
+
+/-- the node `Model/Reflect.lean` builds for a hooked `Vec` field delivers, for each element in
+    order, `pre` of the field-level hook on the element, the element's own walk, `post` on the same
+    element — and nothing around the `Vec` itself -/
+theorem hooked_vec_trace (sch : SqlVerif.Schema.Schema) (h : Nat) (xs : List Val) :
+    fullTrace (SqlVerif.Reflect.hookedVec sch h xs) = eachEvents h [] 0 xs := by
+  rw [fullTrace_eq_events]
+  simp [SqlVerif.Reflect.hookedVec, events, optEv, eventsKids_each]
+
+/-- … so an empty `Vec` gives no callback and `n` childless elements give `n` adjacent pre/post pairs -/
+theorem hooked_vec_count (sch : SqlVerif.Schema.Schema) (h : Nat) (xs : List Val) :
+    (pres (fullTrace (SqlVerif.Reflect.hookedVec sch h xs))).length =
+      xs.length + (hookedPreSeq [] 0 xs).length := by
+  rw [preorder]
+  simp only [SqlVerif.Reflect.hookedVec, hookedPreorder, optPos, List.nil_append]
+  suffices ∀ (i : Nat) (ys : List Val), (hookedPreKids [] i (ys.map fun e => (some h, e))).length =
+      ys.length + (hookedPreSeq [] i ys).length from this 0 xs
+  intro i ys
+  induction ys generalizing i with
+  | nil => simp [hookedPreKids, hookedPreSeq]
+  | cons y r ih => simp [hookedPreKids, hookedPreSeq, optPos, ih (i + 1)]; omega
+
+/-- the reflection of a struct field: hook around each element for a `Vec`, around the field otherwise -/
+theorem hookField_vec (sch : SqlVerif.Schema.Schema) (h : Nat) (t : SqlVerif.Schema.Ty) (xs : List Val) :
+    SqlVerif.Reflect.hookField sch (some h) (.vec t) (.seq xs) = (none, SqlVerif.Reflect.hookedVec sch h xs) := rfl
+theorem hookField_unhooked (sch : SqlVerif.Schema.Schema) (t : SqlVerif.Schema.Ty) (x : Val) :
+    SqlVerif.Reflect.hookField sch none t x = (none, x) := by
+  unfold SqlVerif.Reflect.hookField; split <;> simp_all
+theorem hookField_named (sch : SqlVerif.Schema.Schema) (hk : Option Nat) (id : Nat) (x : Val) :
+    SqlVerif.Reflect.hookField sch hk (.named id) x = (hk, x) := by
+  unfold SqlVerif.Reflect.hookField; split <;> simp_all
+
 /-! ## side conditions on the schema of the crate as it is now -/
 
 open SqlVerif.Schema in
@@ -118,12 +169,11 @@ theorem relation_positions_consistent :
   decide +kernel
 
 /-- The relation-position specification (DESIGN.md C16), written once from the property text:
-    FROM/JOIN (`TableFactor::Table.name`), INSERT/REPLACE target, TRUNCATE targets, and the statement
-    kinds whose table name is hooked today.  UPDATE/MERGE targets are table factors.
-    One position of the property text is NOT in this table because the code does not hook it
-    (known finding, reported by the oracle): `Delete.tables` (a `Vec<ObjectName>`). -/
+    FROM/JOIN (`TableFactor::Table.name`), INSERT/REPLACE target, DELETE targets (`Delete.tables`, a
+    `Vec<ObjectName>`: MySQL multi-table delete), TRUNCATE targets, and the statement kinds whose table
+    name is hooked today.  UPDATE/MERGE targets are table factors. -/
 def relationSpec : List String := [
-  "TableFactor::Table.name", "Insert.table_name", "TruncateTableTarget.name",
+  "TableFactor::Table.name", "Insert.table_name", "Delete.tables", "TruncateTableTarget.name",
   "CreateTable.name", "CreateIndex.table_name",
   "Statement::Analyze.table_name", "Statement::Msck.table_name", "Statement::CreateVirtualTable.name",
   "Statement::CreatePolicy.table_name", "Statement::AlterTable.name", "Statement::AlterView.name",
@@ -134,6 +184,73 @@ def relationSpec : List String := [
 /-- every position of the specification carries `visit(with = "visit_relation")` in the source -/
 theorem relation_positions_hooked :
     relationSpec.all (fun p => SqlVerif.Gen.Schema.relationHookedNames.contains p) = true := by
+  decide +kernel
+
+open SqlVerif.Schema in
+def eachFields (t vi : Nat) : List Field → Nat → List (Nat × Nat × Nat)
+  | [], _ => []
+  | f :: fs, k => (match f.hook, f.ty with | some _, .vec _ => [(t, vi, k)] | _, _ => []) ++ eachFields t vi fs (k + 1)
+open SqlVerif.Schema in
+def eachShapes (t : Nat) : List Shape → Nat → List (Nat × Nat × Nat)
+  | [], _ => []
+  | sh :: r, vi => eachFields t vi sh.fields 0 ++ eachShapes t r (vi + 1)
+open SqlVerif.Schema in
+def eachDefs : List TypeDef → Nat → List (Nat × Nat × Nat)
+  | [], _ => []
+  | d :: r, t => eachShapes t d.shapes 0 ++ eachDefs r (t + 1)
+open SqlVerif.Schema in
+/-- the fields on which `Model/Reflect.lean: hookField` puts the hook around each element: hooked, of
+    (resolved) type `Vec<_>` -/
+def eachFieldsOf (sch : Schema) : List (Nat × Nat × Nat) := eachDefs sch.defs 0
+
+/-- … are exactly the hooked fields the derive treats that way (spelled `Vec<..>` in the source, the
+    test `is_vec` of derive/src/lib.rs, read by the translator) -/
+theorem each_positions_consistent :
+    eachFieldsOf SqlVerif.Gen.Schema.schema = SqlVerif.Gen.Schema.eachHooked ∧
+    SqlVerif.Gen.Schema.eachHooked.length = SqlVerif.Gen.Schema.eachHookedNames.length := by
+  decide +kernel
+
+open SqlVerif.Schema in
+def fieldAt (sch : Schema) (pos : Nat × Nat × Nat) : Option Field :=
+  (sch.get? pos.1).bind fun d => (d.shapes[pos.2.1]?).bind fun sh => sh.fields[pos.2.2]?
+
+open SqlVerif.Schema in
+/-- `ObjectName` or `Vec<ObjectName>`: what `pre_visit_relation(&ObjectName)` can be given, as the
+    field or as each of its elements -/
+def isRelationTy : Ty → Bool
+  | .named id => id == SqlVerif.Gen.Schema.objectNameId
+  | .vec (.named id) => id == SqlVerif.Gen.Schema.objectNameId
+  | _ => false
+
+open SqlVerif.Schema in
+def relationField (pos : Nat × Nat × Nat) : Bool :=
+  match fieldAt SqlVerif.Gen.Schema.schema pos with
+  | some f => (match f.hook with | some 1 => true | _ => false) && isRelationTy f.ty
+  | none => false
+
+/-- every relation-hooked field is an `ObjectName` or a `Vec<ObjectName>` (hooked per element) -/
+theorem relation_hooks_on_object_names :
+    SqlVerif.Gen.Schema.relationHooked.all relationField = true := by
+  decide +kernel
+
+/-- every position of the specification, `Vec` positions included, names a field of the schema of
+    type `ObjectName` or `Vec<ObjectName>` that carries the relation hook -/
+theorem relation_spec_typed :
+    relationSpec.all (fun p =>
+      match (SqlVerif.Gen.Schema.relationHookedNames.zip SqlVerif.Gen.Schema.relationHooked).lookup p with
+      | some pos => relationField pos
+      | none => false) = true := by
+  decide +kernel
+
+open SqlVerif.Schema in
+/-- the targets of a multi-table DELETE are a `Vec<ObjectName>` carrying the relation hook, and the
+    hook is applied per element -/
+theorem delete_targets_hooked_each :
+    (match (SqlVerif.Gen.Schema.relationHookedNames.zip SqlVerif.Gen.Schema.relationHooked).lookup "Delete.tables" with
+     | some pos => relationField pos && SqlVerif.Gen.Schema.eachHooked.contains pos &&
+        (match (fieldAt SqlVerif.Gen.Schema.schema pos).map (·.ty) with | some (Ty.vec _) => true | _ => false)
+     | none => false) = true ∧
+    SqlVerif.Gen.Schema.eachHookedNames.contains "Delete.tables" = true := by
   decide +kernel
 
 /-- no hook id outside the five callback families occurs in the schema -/
@@ -164,6 +281,29 @@ example : run (fun i => i == 5) demo = (true, ⟨6, (fullTrace demo).take 6⟩) 
   break_stops _ demo 5 (by decide) (by decide) (by decide +kernel)
 example : ((run (fun i => i == 5) demo).2.tr.map (fun e => (e.pos.hook, e.post))) =
     [(4, false), (0, false), (3, false), (3, true), (2, false), (1, false)] := by decide +kernel
+/-- `DELETE t1, t2 FROM …`-like tree: statement(4) > delete with a relation-hooked `Vec` of two names:
+    one pre/post pair per element, in order; nothing for an empty `Vec`; a hook on a non-`Vec` field
+    stays around the field -/
+def name1 : Val := .node 4 0 none [(none, .seq [.leaf 1])]
+def demoDelete (tables : List Val) : Val :=
+  .node 84 3 (some 4) [(none, .node 40 0 none
+    [SqlVerif.Reflect.hookField SqlVerif.Gen.Schema.schema (some 1) (.vec (.named 4)) (.seq tables), (none, eLeaf)])]
+example : (fullTrace (demoDelete [name1, name1])).map (fun e => (e.pos.hook, e.post, e.pos.path)) =
+    [(4, false, []), (1, false, [0, 0, 0]), (1, true, [0, 0, 0]), (1, false, [1, 0, 0]), (1, true, [1, 0, 0]),
+     (3, false, [1, 0]), (3, true, [1, 0]), (4, true, [])] := by decide +kernel
+example : (fullTrace (demoDelete [])).map (fun e => (e.pos.hook, e.post)) =
+    [(4, false), (3, false), (3, true), (4, true)] := by decide +kernel
+example : fullTrace (SqlVerif.Reflect.hookedVec SqlVerif.Gen.Schema.schema 1 [name1, eLeaf]) =
+    [⟨⟨1, true, [0]⟩, false⟩, ⟨⟨1, true, [0]⟩, true⟩,
+     ⟨⟨1, true, [1]⟩, false⟩, ⟨⟨3, false, [1]⟩, false⟩, ⟨⟨3, false, [1]⟩, true⟩, ⟨⟨1, true, [1]⟩, true⟩] :=
+  hooked_vec_trace _ 1 [name1, eLeaf]
+example : SqlVerif.Reflect.hookField SqlVerif.Gen.Schema.schema (some 1) (.named 4) name1 = (some 1, name1) :=
+  hookField_named _ _ _ _
+/-- Break inside the loop (at the `pre` of the second element): 4 callbacks, the rest is not delivered -/
+example : ((run (fun i => i == 3) (demoDelete [name1, name1])).2.tr.map (fun e => (e.pos.hook, e.post))) =
+    [(4, false), (1, false), (1, true), (1, false)] := by decide +kernel
+example : SqlVerif.Gen.Schema.eachHooked ≠ [] := by decide
+
 /-- an unbalanced sequence is rejected by `dyck`, so `balanced` says something -/
 example : dyck [] [⟨⟨3, false, []⟩, false⟩, ⟨⟨0, false, []⟩, true⟩] = false := by decide
 /-- a mutating visitor does change the tree (so `identity_mut` is about the identity visitor, not about all) -/
